@@ -195,14 +195,28 @@ fn has_nested_masks(vals: &[RuntimeBoxedVal]) -> bool {
             SVD::RightShift { value, .. } | SVD::LeftShift { value, .. } => value.clone(),
             SVD::Divide { dividend, .. } => dividend.clone(),
             SVD::Multiply { left, right } => if is_const(left) { right.clone() } else { left.clone() },
+            // a value read back from the slot it was stored to is that value
+            SVD::SLoad { value, .. } => value.clone(),
             _ => v.clone(),
         }
+    }
+    // the masked value behind any number of shifts and storage round trips
+    fn behind(v: &RuntimeBoxedVal) -> RuntimeBoxedVal {
+        let mut cur = v.clone();
+        for _ in 0..8 {
+            let next = through_shift(&cur);
+            if std::sync::Arc::ptr_eq(&next, &cur) {
+                break;
+            }
+            cur = next;
+        }
+        cur
     }
     let mut found = false;
     for v in vals {
         values::walk(v, &mut |n| {
             if let Some(inner) = masked(n) {
-                if masked(&through_shift(&inner)).is_some() {
+                if masked(&behind(&inner)).is_some() {
                     found = true;
                 }
             }
@@ -364,6 +378,23 @@ fn mask_shift_program(rng: &mut StdRng) -> Vec<u8> {
         items.extend([p1(0), Item::Op(0x54), Item::Push(vec![(sh >> 8) as u8, (sh & 0xff) as u8]), Item::Op(0x1c), Item::Push(mask), Item::Op(0x16), p1(1), Item::Op(0x55), Item::Op(0x00)]);
         return assemble(&items);
     }
+    // constants that end up as the width of a type: SIGNEXTEND with a constant in either operand position
+    if rng.gen_bool(0.12) {
+        let k: u32 = *[0u32, 1, 15, 30, 31, 32, 33, 127, 128, 255, 256, 257, 260, 263, 264, 511, 65536].choose(rng).unwrap();
+        let kb = k.to_be_bytes();
+        let first = kb.iter().position(|b| *b != 0).unwrap_or(3);
+        let val: Vec<Item> = if rng.gen_bool(0.5) { vec![p1(0), Item::Op(0x54)] } else { vec![p1(0), Item::Op(0x35)] };
+        if rng.gen_bool(0.5) {
+            items.extend(val);
+            items.extend([Item::Push(kb[first..].to_vec()), Item::Op(0x0b)]);
+        } else {
+            items.push(Item::Push(kb[first..].to_vec()));
+            items.extend(val);
+            items.push(Item::Op(0x0b));
+        }
+        items.extend([p1(1), Item::Op(0x55), Item::Op(0x00)]);
+        return assemble(&items);
+    }
     // several extractions from ONE slot, some of them nested, stored to different slots
     if rng.gen_bool(0.2) {
         for i in 0..rng.gen_range(2..4u8) {
@@ -418,8 +449,18 @@ fn lookalike_program(rng: &mut StdRng, with_storage: bool) -> Vec<u8> {
     let mut items = Vec::new();
     for _ in 0..rng.gen_range(1..5) {
         let c = rng.gen_range(0..30u8);
-        match rng.gen_range(0..if with_storage { 5 } else { 4 }) {
-            3 => {
+        match rng.gen_range(0..if with_storage { 7 } else { 6 }) {
+            5 | 6 if rng.gen_bool(0.5) || !with_storage => {
+                // the hash of a small slot number as a pushed literal (what the optimiser leaves of keccak(c)),
+                // alone, plus an index, or as the second half of a hashed pair
+                let lit = Item::Push(hex::decode(keccak_word(u64::from(c))).unwrap());
+                match rng.gen_range(0..3) {
+                    0 => items.push(lit),
+                    1 => items.extend([lit, p1(4), Item::Op(0x35), Item::Op(0x01)]),
+                    _ => items.extend([p1(4), Item::Op(0x35), lit, Item::Op(0x01)]),
+                }
+            }
+            3 | 5 | 6 => {
                 // bytes that are not storage instructions but look like them to a careless table
                 // (0x5c / 0x5d are unassigned in the targeted fork), with constant operands
                 if rng.gen_bool(0.5) {
@@ -488,7 +529,15 @@ fn literal_key_program(rng: &mut StdRng) -> Vec<u8> {
             }
             _ => vec![0x80, 0, 0, 0, 0, 0, 0, 0, 0, 0, 0, 0, 0, 0, 0, 0, 0, 0, 0, 0, 0, 0, 0, 0, 0, 0, 0, 0, 0, 0, 0, 1],
         };
-        match rng.gen_range(0..6) {
+        match rng.gen_range(0..7) {
+            6 => {
+                // a write whose value is as large as the (default) value size limit allows, or just beyond
+                items.push(Item::Op(0x33));
+                for _ in 0..rng.gen_range(122..127) {
+                    items.extend([Item::Op(0x33), Item::Op(0x01)]);
+                }
+                items.extend([Item::Push(key), Item::Op(0x55)]);
+            }
             3 => {
                 // a read whose value is consumed by an expression that outgrows the size limit
                 items.extend([Item::Push(key), Item::Op(0x54)]);
@@ -531,9 +580,35 @@ fn renumber(vars: &[VarDesc], rng: &mut StdRng) -> (Vec<VarDesc>, Vec<(String, S
     let mut used: Vec<[u8; 32]> = vars.iter().map(|v| v.slot).collect();
     let mut out = Vec::new();
     let mut sigma = Vec::new();
-    for v in vars {
+    // now and then every new slot number is the same small number plus a different multiple of 2^64
+    let congruent = rng.gen_bool(0.35);
+    let named = rng.gen_bool(0.4);
+    let low: u8 = rng.gen_range(0..40);
+    for (n, v) in vars.iter().enumerate() {
         let mut w = v.clone();
-        let fresh = idioms::random_var(rng, &mut used).slot;
+        let mut fresh = idioms::random_var(rng, &mut used).slot;
+        if named && !congruent {
+            // a slot named by a short printable string, left-aligned in the word
+            let mut s = [0u8; 32];
+            let name = [&b"balances"[..], b"owner", b"total.supply", b"allowances", b"paused"][n % 5];
+            s[..name.len()].copy_from_slice(name);
+            s[name.len()] = b'0' + (n / 5) as u8;
+            if !used.contains(&s) {
+                used.push(s);
+                fresh = s;
+            }
+        }
+        if congruent {
+            let mut s = [0u8; 32];
+            s[31] = low;
+            if n > 0 {
+                s[23 - 8 * ((n - 1) % 3)] = 1 + ((n - 1) / 3) as u8; // 2^64, 2^128, 2^192 times a small factor
+            }
+            if !used.contains(&s) {
+                used.push(s);
+                fresh = s;
+            }
+        }
         sigma.push((hex::encode(v.slot), hex::encode(fresh)));
         w.slot = fresh;
         if rng.gen_bool(0.3) {
@@ -669,6 +744,32 @@ pub fn run(o: &Opts) -> R<()> {
             }
         }
     }
+    // 3c. constants that end up as the width of a type: SIGNEXTEND with every boundary constant in either position
+    for k in [0u32, 1, 7, 15, 30, 31, 32, 33, 127, 128, 255, 256, 257, 258, 260, 263, 264, 511, 65536] {
+        for const_on_top in [false, true] {
+            for from_storage in [false, true] {
+                let kb = k.to_be_bytes();
+                let first = kb.iter().position(|b| *b != 0).unwrap_or(3);
+                let val: Vec<Item> = if from_storage { vec![p1(0), Item::Op(0x54)] } else { vec![p1(0), Item::Op(0x35)] };
+                let mut items = Vec::new();
+                if const_on_top {
+                    items.extend(val);
+                    items.extend([Item::Push(kb[first..].to_vec()), Item::Op(0x0b)]);
+                } else {
+                    items.push(Item::Push(kb[first..].to_vec()));
+                    items.extend(val);
+                    items.push(Item::Op(0x0b));
+                }
+                items.extend([p1(1), Item::Op(0x55), Item::Op(0x00)]);
+                let code = assemble(&items);
+                let obs = observe(&code, &lim);
+                if obs.res == "ok" {
+                    oks += 1;
+                }
+                emit(&mut ws, record("width-constants", &code, None, &obs), "width-constants", &mut count);
+            }
+        }
+    }
     // 4. C11: composition of fragments with disjoint slot sets, and renumbering
     let mut compose = 0usize;
     let mut renames = 0usize;
@@ -691,16 +792,22 @@ pub fn run(o: &Opts) -> R<()> {
         if rng.gen_bool(0.5) {
             ab.reverse(); // a different dispatcher shape
         }
-        let (oa, ob, oab) = (observe(&idioms::compile(&a), &lim), observe(&idioms::compile(&b), &lim), observe(&idioms::compile(&ab), &lim));
-        emit(&mut ws, json!({"ev": "compose", "a": oa.entries, "b": ob.entries, "ab": oab.entries,
-                             "res": [oa.res, ob.res, oab.res], "hex": hex::encode(idioms::compile(&ab)),
+        // the dispatcher, or a chain of guards (accesses of both fragments then share paths)
+        let shape = if rng.gen_bool(0.35) && idioms::branch_count(&ab) <= 5 { 2 } else { 0 };
+        let (oa, ob, oab) = (observe(&idioms::compile_shaped(&a, shape), &lim), observe(&idioms::compile_shaped(&b, shape), &lim),
+                             observe(&idioms::compile_shaped(&ab, shape), &lim));
+        emit(&mut ws, json!({"ev": "compose", "a": oa.entries, "b": ob.entries, "ab": oab.entries, "shape": shape,
+                             "res": [oa.res, ob.res, oab.res], "hex": hex::encode(idioms::compile_shaped(&ab, shape)),
                              "vars": ab.iter().map(VarDesc::to_json).collect::<Vec<_>>()}), "compose", &mut count);
         compose += 1;
+        // renumbering, under every control-flow shape (straight-line code puts all accesses on one path)
+        let rshape = if idioms::branch_count(&a) <= 5 { rng.gen_range(0..3) } else { rng.gen_range(0..2) };
         let (q, sigma) = renumber(&a, &mut rng);
-        let oq = observe(&idioms::compile(&q), &lim);
-        emit(&mut ws, json!({"ev": "rename", "p": oa.entries, "q": oq.entries, "res": [oa.res, oq.res],
+        let op = observe(&idioms::compile_shaped(&a, rshape), &lim);
+        let oq = observe(&idioms::compile_shaped(&q, rshape), &lim);
+        emit(&mut ws, json!({"ev": "rename", "p": op.entries, "q": oq.entries, "res": [op.res, oq.res], "shape": rshape,
                              "sigma": sigma.iter().map(|(f, t)| json!([f, t])).collect::<Vec<_>>(),
-                             "hex": hex::encode(idioms::compile(&a)), "hex_q": hex::encode(idioms::compile(&q))}), "rename", &mut count);
+                             "hex": hex::encode(idioms::compile_shaped(&a, rshape)), "hex_q": hex::encode(idioms::compile_shaped(&q, rshape))}), "rename", &mut count);
         renames += 1;
     }
     let mut recs = 0;
